@@ -79,7 +79,7 @@ FUNCTIONS = {
       'implies(exists(i, 0, len(ars), old(succeeded(ars[i]))), result.g_ready and result.exception is None)',
     ],
     modifies=['list[int]', 'list[AsyncResult]', 'AsyncResult.g_sets', 'AsyncResult.value', 'AsyncResult.exception', 'AsyncResult.g_ready', '$cls'],
-    allocates='any',
+    allocates=True,
     loops={0: dict(invariant=['not ret.g_ready', 'fresh(ret)'], modifies=[], allocates=False)},
     props=['C17'],
   ),
@@ -97,7 +97,7 @@ FUNCTIONS.update({
     requires=['len(ars) >= 1'],
     ensures=['fresh(result)', 'not result.g_ready'],
     modifies=['list[int]', 'list[any]', 'AsyncResult.g_sets', 'AsyncResult.value', 'AsyncResult.exception', 'AsyncResult.g_ready', 'AsyncResult.g_links', '$cls'],
-    allocates='any',
+    allocates=True,
     loops={0: dict(invariant=['not ret.g_ready', 'fresh(ret)', 'len(total) == 1 and total[0] == len(ars)',
                               'len(results) == len(ars)', 'forall(k, 0, len(results), results[k] is None)',
                               'fresh(total) and fresh(results)'],
@@ -114,7 +114,7 @@ FUNCTIONS.update({
     cls='AsyncResult', returns='AsyncResult',
     requires=[], ensures=['fresh(result)'],
     modifies=['AsyncResult.g_sets', 'AsyncResult.value', 'AsyncResult.exception', 'AsyncResult.g_ready', 'AsyncResult.g_links', '$cls'],
-    allocates='any',
+    allocates=True,
     props=['C17'],
   ),
   'AsyncResult._UnwrapHelper': dict(
